@@ -299,7 +299,7 @@ pub fn run(ctx: &Ctx) -> Report {
     for residue in [1usize, 2, 0] {
         if let Some(ops) = aligned_ops(&mut rng, residue) {
             // stream = FileStart(a) 18 bytes + FileContent header 17 bytes + data: block 0 holds data[..block-35]
-            let upto = CONSTS.block - 35;
+            let upto = CONSTS.block.saturating_sub(35).max(1);
             for layers in [L_COMP | L_ENC, L_COMP] {
                 let mut cfg = Cfg::make(&mut rng, layers);
                 cfg.level = 5;
